@@ -36,6 +36,7 @@ func (t *T0x0805) Parse(jtMsg *jt808.JTMessage) error {
 	if len(body) != 5+int(t.MultimediaIDNumber)*4 {
 		return protocol.ErrBodyLengthInconsistency
 	}
+	t.MultimediaIDList = nil // 复用同一个对象解析时 不能保留上一次的列表
 	for i := 0; i < int(t.MultimediaIDNumber); i++ {
 		start := 5 + i*4
 		end := start + 4
